@@ -94,6 +94,11 @@ class TokErr(Exception):
     pass
 
 
+class TokBaseErr(BaseException):
+    """raised by odd-numbered callbacks: an exception that is not an Exception subclass
+    must become a Failure exactly like any other"""
+
+
 class Need(Exception):
     """the reference is about to run a callback whose behaviour is not chosen yet"""
 
@@ -341,7 +346,7 @@ def classify(st, r):
         return None
     if isinstance(r, Failure):
         v = r.value
-        if isinstance(v, TokErr) and v.args:
+        if isinstance(v, (TokErr, TokBaseErr)) and v.args:
             return ("fail", v.args[0])
         return ("fail", "?" + type(v).__name__)
     if isinstance(r, Deferred):
@@ -364,7 +369,7 @@ def mkfn(st, i, cid, slot):
         if kind == "v":
             return tok
         if kind == "x":
-            raise TokErr(tok)
+            raise (TokBaseErr if cid % 2 else TokErr)(tok)
         if kind == "f":
             return Failure(TokErr(tok))
         return st.d[int(beh[1:])]
@@ -409,6 +414,9 @@ def apply(st, ev):
             d.callback(("c", mo.nfire - 1))
         elif op == "eb":
             d.errback(TokErr(("e", mo.nfire - 1)))
+    except TokBaseErr as e:
+        st.bad.append(("Deferred:exception-raised-by-callback-escaped:%s" % op,
+                       "a callback raised a BaseException subclass and it propagated out of %s instead of becoming a Failure" % op))
     except Exception as e:
         import traceback
         tb = e.__traceback__
